@@ -573,7 +573,7 @@ def str_join(interp, sep, it):
     parts = [x for x in interp.iter_(it)]
     if all(isinstance(p, str) for p in parts):
         return sep.join(parts)
-    if all(isinstance(p, (str, Opaque)) for p in parts):
+    if all(isinstance(p, (str, Opaque, SymName)) for p in parts):
         return Opaque()
     raise PyExc(TypeError, ('sequence item: expected str instance',))
 
